@@ -1313,6 +1313,63 @@ def filter_posterior_case(ctx, rng, idx):
         ctx.violation_exc('evaluation_raises', e, {'case': feats}, feats)
 
 
+def constructor_n_ids_case(ctx, rng, idx):
+    """a composite built from sub-models that were created for different
+    numbers of individuals (default 1 next to one already sized for n): its
+    count, names and hierarchical counts describe ONE number of individuals,
+    the same as after an explicit set_n_ids(n_ids())"""
+    n = int(rng.integers(2, 5))
+    k = int(rng.integers(2, 5))
+    sized = int(rng.integers(k))
+    subs = []
+    for j in range(k):
+        kind = 'HHGP'[int(rng.integers(4))] if j != sized else 'H'
+        if kind == 'H':
+            mdl = chi.HeterogeneousModel(
+                n_dim=int(rng.integers(1, 3)),
+                n_ids=n if j == sized else 1)
+        elif kind == 'G':
+            mdl = chi.GaussianModel()
+        else:
+            mdl = chi.PooledModel()
+        w = rng.random()
+        if w < 0.2:
+            mdl = chi.ReducedPopulationModel(mdl)
+        elif w < 0.35:
+            mdl = chi.ComposedPopulationModel([mdl, chi.PooledModel()])
+        subs.append(mdl)
+    feats = {'family': 'constructor_n_ids', 'n_ids': n,
+             'position_of_the_sized_sub_model': sized, 'n_sub_models': k}
+    ctx.case(('constructor_n_ids', k, sized, n), True, sample=feats)
+    try:
+        m = chi.ComposedPopulationModel(subs)
+        ctx.count('reconfiguration_steps')
+        ctx.count('invariant_evaluations')
+        n_now = m.n_ids()
+        got = (m.n_parameters(), len(m.get_parameter_names()),
+               tuple(m.n_hierarchical_parameters(n_now)))
+        twin = copy.deepcopy(m)
+        twin.set_n_ids(n_now)
+        want = (twin.n_parameters(), len(twin.get_parameter_names()),
+                tuple(twin.n_hierarchical_parameters(n_now)))
+    except Exception as e:      # noqa
+        ctx.violation_exc('construction_raises', e, {'case': feats}, feats)
+        return
+    prob = []
+    if got[0] != got[1] or got[0] != got[2][1]:
+        prob.append('n_parameters %d, names %d, n_hierarchical top %d' % (
+            got[0], got[1], got[2][1]))
+    if got != want:
+        prob.append('as constructed %r, after set_n_ids(%d) %r' % (
+            got, n_now, want))
+    if n_now != n:
+        prob.append('n_ids() = %d, a sub-model was sized for %d' % (
+            n_now, n))
+    if prob:
+        _bad(ctx, 'population_counts', {'problems': prob, 'case': feats},
+             feats)
+
+
 def constructor_names_case(ctx, rng, idx):
     """names given to the constructors (dim_names, cov_names) are what the
     setters would have set: a model built with names equals, name for name
@@ -1389,6 +1446,8 @@ def constructor_names_case(ctx, rng, idx):
 
 
 FAMILIES = [
+    Family('constructor_n_ids', constructor_n_ids_case, quick=120,
+           thorough=1200),
     Family('constructor_names', constructor_names_case, quick=120,
            thorough=1200),
     Family('filter_posterior', filter_posterior_case, quick=150,
